@@ -19,7 +19,6 @@
 
 package tcc
 
-
 // Verification contracts (comment-only, tag verif) for property C05: a TCC prepare registers its
 // branch before the user's try runs; phase two dispatches to the registered action faithfully.
 // Abstract (trusted): everything that works by reflection over the user's parameter struct or by
